@@ -586,5 +586,106 @@ def bounds_units(ctx):
     return res
 
 
-RULES = [apply_result, push_before_run, undo_updates, merit, scale_inverse,
+def operand_chain(ctx):
+    """what the merit function evaluates is the registered metric of the
+    operand's own type called with the operand's own inputs."""
+    from .common import arg_wiring
+    from ..match import find, find_seq
+    P = ctx.P
+    res = arg_wiring(ctx, 'OPERAND-CHAIN', [
+        ('OptimizationProblem.add_operand', 'Operand.__init__',
+         {'operand_type': 'operand_type', 'target': 'target',
+          'weight': 'weight', 'input_data': 'input_data'}),
+        ('OptimizationProblem.add_variable', 'Variable.__init__',
+         {'optic': 'optic', 'variable_type': 'type_name', '**kwargs': '**'}),
+    ])
+    res.what = ('operands: add_operand -> Operand(type, target, weight, '
+                'inputs); value = registry[type](**inputs); paraxial '
+                'wrappers call the accessor of their own name')
+    oi = P.func('Operand.__init__')
+    res.saw(oi)
+    got = {}
+    for st in ast.walk(oi.node):
+        if isinstance(st, ast.Assign) and isinstance(
+                st.targets[0], ast.Attribute):
+            got[st.targets[0].attr] = unparse(st.value)
+    want = {'type': 'operand_type', 'target': 'target', 'weight': 'weight',
+            'input_data': 'input_data'}
+    if got == want:
+        res.ok('Operand.__init__ stores type, target, weight, input_data')
+    else:
+        res.fail(ctx.finding('OPERAND-CHAIN', oi, oi.node,
+                             f'Operand.__init__ stores {got}',
+                             construct='Operand.__init__ stores'))
+    ov = P.classes['Operand'].props.get('value')
+    if ov is None:
+        raise AnalysisError('Operand.value not found')
+    res.saw(ov)
+    okv = False
+    for b in find_seq(ov, ['$m = operand_registry.get(self.type)']):
+        for r_ in ast.walk(ov.node):
+            if isinstance(r_, ast.Return) and isinstance(r_.value, ast.Call) \
+                    and unparse(r_.value.func) == unparse(b['m']) and \
+                    not r_.value.args and len(r_.value.keywords) == 1 and \
+                    r_.value.keywords[0].arg is None:
+                selfs = {unparse(x) for x in ast.walk(r_.value.keywords[0].value)
+                         if isinstance(x, ast.Attribute) and
+                         isinstance(x.value, ast.Name) and x.value.id == 'self'}
+                okv = selfs == {'self.input_data'}
+    if okv:
+        res.ok('Operand.value = registry.get(self.type)(**self.input_data)')
+    else:
+        res.fail(ctx.finding('OPERAND-CHAIN', ov, ov.node,
+                             'Operand.value is not the registered metric of '
+                             'its own type applied to its own inputs',
+                             construct='Operand.value'))
+    rg, rr = P.func('OperandRegistry.get'), P.func('OperandRegistry.register')
+    res.saw(rg), res.saw(rr)
+    if (find(rg, f'return self._registry.get({rg.params[0]})') or
+            find(rg, f'return self._registry[{rg.params[0]}]')) and \
+            find(rr, f'self._registry[{rr.params[0]}] = {rr.params[1]}'):
+        res.ok('registry: register stores func under name; get returns it')
+    else:
+        res.fail(ctx.finding('OPERAND-CHAIN', rg, rg.node,
+                             'operand registry does not return the function '
+                             'registered under the name',
+                             construct='OperandRegistry get/register'))
+    # module-level registration loop
+    ok = False
+    for rel, tree in P.modules.items():
+        if not rel.endswith('operand/operand.py'):
+            continue
+        for st in tree.body:
+            if isinstance(st, ast.For) and \
+                    unparse(st.iter) == 'METRIC_DICT.items()' and \
+                    unparse(st.target) == '(name, func)' and any(
+                        unparse(b).startswith(
+                            'operand_registry.register(name, func)')
+                        for b in st.body):
+                ok = True
+    if ok:
+        res.ok('every METRIC_DICT entry is registered under its own key')
+    else:
+        res.fail(ctx.finding('OPERAND-CHAIN', rr, None,
+                             'METRIC_DICT is not registered key by key',
+                             construct='METRIC_DICT registration loop'))
+    n = 0
+    for m in P.classes['ParaxialOperand'].methods.values():
+        res.saw(m)
+        n += 1
+        if find(m, f'return optic.paraxial.{m.name}()') and \
+                m.node.args.args and m.node.args.args[0].arg == 'optic':
+            res.ok(f'ParaxialOperand.{m.name} -> optic.paraxial.{m.name}()')
+        else:
+            res.fail(ctx.finding(
+                'OPERAND-CHAIN', m, m.node,
+                f'ParaxialOperand.{m.name} does not return '
+                f'optic.paraxial.{m.name}()',
+                construct=f'ParaxialOperand.{m.name}'))
+    if n < 13:
+        raise AnalysisError('ParaxialOperand: fewer than 13 wrappers')
+    return res
+
+
+RULES = [operand_chain, apply_result, push_before_run, undo_updates, merit, scale_inverse,
          get_set_symmetry, var_dispatch, bounds_units]
